@@ -26,6 +26,7 @@ type Val struct {
 	Recv  *Val           // bound receiver for method values
 	Tuple []*Val
 	Spec  *SpecFunc // reference to a spec function (callee position)
+	Boxed bool      // pointer to a heap-allocated struct local standing for the local itself
 	// provenance hints (for diagnostics)
 	Note string
 }
@@ -93,6 +94,7 @@ type World struct {
 	Trusted  map[string]bool // trusted-base notes collected during a run
 	Abstr    map[string]bool // abstracted calls
 	Unsup    map[string]bool // unsupported constructs encountered
+	addrTaken map[*types.Var]bool
 }
 
 func (w *World) note(m map[string]bool, s string) { m[s] = true }
@@ -142,6 +144,8 @@ type Exec struct {
 	inlineDepth int
 	ghostExec bool
 	bodyHash string
+	exitAfterHooks bool
+	boxed map[types.Object]bool
 	selHasDone *bool
 	unitBody ast.Node
 	entryState *State
